@@ -434,6 +434,21 @@ fn call(f: &str, a: &[Value]) -> Value {
             let r = c2pa::verif_hooks::bmff_io::verif_hooks::small_helpers(mk, a[2].as_u64().unwrap());
             json!({"ok": r.to_vec()})
         }
+        // JUMBF box readers on raw bytes: args = [data (latin-1), start position, declared size]
+        "jumbf_desc_box" => {
+            let data: Vec<u8> = s(&a[0]).chars().map(|c| c as u32 as u8).collect();
+            let mut cur = std::io::Cursor::new(data);
+            cur.set_position(a[1].as_u64().unwrap());
+            json!({"ok": c2pa::verif_hooks::boxes::BoxReader::read_desc_box(&mut cur, a[2].as_u64().unwrap()).is_ok()})
+        }
+        "jumbf_content_boxes" => {
+            let data: Vec<u8> = s(&a[0]).chars().map(|c| c as u32 as u8).collect();
+            let mk = || { let mut c = std::io::Cursor::new(data.clone()); c.set_position(a[1].as_u64().unwrap()); c };
+            let size = a[2].as_u64().unwrap();
+            json!({"json": c2pa::verif_hooks::boxes::BoxReader::read_json_box(&mut mk(), size).is_ok(),
+                   "cbor": c2pa::verif_hooks::boxes::BoxReader::read_cbor_box(&mut mk(), size).is_ok(),
+                   "header": c2pa::verif_hooks::boxes::BoxReader::read_header(&mut mk()).is_ok()})
+        }
         "bmff_ftyp" => {
             let data: Vec<u8> = s(&a[0]).chars().map(|c| c as u32 as u8).collect();
             let mut cur = std::io::Cursor::new(data);
